@@ -79,7 +79,8 @@ def getterDiffs (nw : Network) (o : SchedObs) : List String :=
 /-- all schedule monitors on one dumped implementation state -/
 def monitorSched (nw : Network) (what : String) (o : SchedObs) : VM Unit := do
   for c in scheduleValidDiffs nw o.s do
-    let props := if c.startsWith "transition-" then "C10,C15" else if c == "formation-limits" || c == "depot-limits" then "C10,C02" else "C10"
+    let props := if c.startsWith "transition-" then "C10,C15" else if c == "formation-limits" || c == "depot-limits" then "C10,C02"
+      else if c == "vehicle-tours" then "C10,C01" else "C10"
     vfail props s!"sched-{c}" what
   for c in scheduleCacheDiffs nw o.s do
     vfail "C09,C04" s!"cache-{c}" what
